@@ -55,8 +55,8 @@ func (ex *Exec) mapElemVal(t types.Type, term *Term) Val {
 	if isBigIntPtr(t) {
 		return PtrV{K: PBig, Ref: term, Elem: t.(*types.Pointer).Elem()}
 	}
-	if _, isPtr := t.Underlying().(*types.Pointer); isPtr {
-		return PtrV{K: POpaque, Ref: term}
+	if pt, isPtr := t.Underlying().(*types.Pointer); isPtr {
+		return PtrV{K: POpaque, Ref: term, Elem: pt.Elem()}
 	}
 	return OpaqueV{Typ: t, Id: term}
 }
